@@ -157,7 +157,10 @@ var schemas = map[string][]field{
 	"NewNHG":        {{"NextHop", "NextHop", kind{k: "list", s: "NewNHGMember", elemNN: true}}},
 	"OrigNHG":       {{"NextHop", "NextHop", kind{k: "list", s: "OrigNHGMember", elemNN: true, keyed: true}}},
 	"ErrView":       {{"AsClientErr", "AsClientErr", kPtr("ClientErrG")}},
-	"ClientErrG":    {{"Send", "Send", kind{k: "list", s: "Status", elemNN: true}}, {"Recv", "Recv", kind{k: "list", s: "Status", elemNN: true}}},
+	"ClientErrG":    {{"Send", "Send", kind{k: "list", s: "Status", elemNN: true}}, {"Recv", "Recv", kind{k: "list", s: "GStatus", optElems: true}}},
+	"GStatus":       {{"Code", "Code", kNat}, {"Message", "Message", kStr}, {"Details", "Details", kPtr("StrBox")}},
+	"StrBox":        {},
+	"ErrOptG":       {{"IsAllowUnimplemented", "IsAllowUnimplemented", kBool}, {"IsIgnoreDetails", "IsIgnoreDetails", kBool}},
 	"FlNHG":         {{"BackupNextHopGroup", "BackupNextHopGroup", kPtr("UintBox")}},
 	"UintBox":       {},
 	"FlushErr":      {{"Errs", "Errs", kind{k: "list", s: "Status", elemNN: true}}},
@@ -184,7 +187,7 @@ var leanStruct = map[string]string{
 	"IPv4EntryC": "IPv4EntryC", "IPv6EntryC": "IPv6EntryC", "LabelEntryC": "LabelEntryC", "NHGEntryC": "NHGEntryC", "NHEntryC": "NHEntryC", "AFTOperationC": "AFTOperationC", "ModifyRequestC": "ModifyRequestC",
 	"AFTErrorDetails": "AFTErrorDetails", "AFTResultC": "AFTResultC", "SessionParametersResult": "SessionParametersResult", "ModifyResponseC": "ModifyResponseC", "PendingOp": "PendingOp",
 	"ElectionReqDetails": "ElectionReqDetails", "SessionParamReqDetails": "SessionParamReqDetails", "OpDetailsResults": "OpDetailsResults", "COpResult": "COpResult",
-	"AFTResultList": "(List AFTResultC)", "Bool": "Bool", "pendingQueue": "PendingQueue", "pendingEntry": "PendingEntry", "RibOpResult": "RibOpResult", "OrigTop": "OrigTop", "OrigNHGMember": "OrigNHGMember", "OrigNHG": "OrigNHG", "KeyRIB": "KeyRIB", "GPrefix": "GPrefix", "GLabel": "GLabel", "GId": "GId", "GIndex": "GIndex", "GAFTEntry": "GAFTEntry", "cache": "GetCache", "GetResponseG": "GetResponseG", "ReconEntS": "ReconEnt", "ReconEntN": "ReconEnt", "ReconAfts": "ReconAfts", "ReconNI": "ReconNI", "ReconOp": "ReconOp", "TblEntry": "TblEntry", "NewElem": "NewElem", "NewAfts": "NewAfts", "NewRIB": "NewRIB", "StringValue": "StringValue", "UintValue": "UintValue", "NewTop": "NewTop", "NewNHGMember": "NewNHGMember", "NewNHG": "NewNHG", "FlNHG": "FlNHG", "ErrView": "ErrView", "ClientErrG": "ClientErrG", "UintBox": "Nat", "FlushErr": "FlushErr", "Nat": "Nat", "Status": "Status",
+	"AFTResultList": "(List AFTResultC)", "Bool": "Bool", "pendingQueue": "PendingQueue", "pendingEntry": "PendingEntry", "RibOpResult": "RibOpResult", "OrigTop": "OrigTop", "OrigNHGMember": "OrigNHGMember", "OrigNHG": "OrigNHG", "KeyRIB": "KeyRIB", "GPrefix": "GPrefix", "GLabel": "GLabel", "GId": "GId", "GIndex": "GIndex", "GAFTEntry": "GAFTEntry", "cache": "GetCache", "GetResponseG": "GetResponseG", "ReconEntS": "ReconEnt", "ReconEntN": "ReconEnt", "ReconAfts": "ReconAfts", "ReconNI": "ReconNI", "ReconOp": "ReconOp", "TblEntry": "TblEntry", "NewElem": "NewElem", "NewAfts": "NewAfts", "NewRIB": "NewRIB", "StringValue": "StringValue", "UintValue": "UintValue", "NewTop": "NewTop", "NewNHGMember": "NewNHGMember", "NewNHG": "NewNHG", "FlNHG": "FlNHG", "ErrView": "ErrView", "ClientErrG": "ClientErrG", "GStatus": "GStatus", "StrBox": "String", "ErrOptG": "ErrOptG", "UintBox": "Nat", "FlushErr": "FlushErr", "Nat": "Nat", "Status": "Status",
 }
 
 func leanType(k kind) string {
@@ -806,6 +809,13 @@ func trExpr(e ast.Expr, en env) val {
 		}
 	}
 	switch v := e.(type) {
+	case *ast.TypeAssertExpr:
+		if cur != nil && cur.statusViews && v.Type != nil {
+			if c, ok := v.X.(*ast.CallExpr); ok && render(c.Fun) == "proto.Clone" && len(c.Args) == 1 {
+				// proto.Clone(p).(*T): a copy of p
+				return copyOf(trExpr(c.Args[0], en), en, v.Pos())
+			}
+		}
 	case *ast.ParenExpr:
 		return trExpr(v.X, en)
 	case *ast.Ident:
@@ -840,6 +850,11 @@ func trExpr(e ast.Expr, en env) val {
 		r := render(v)
 		if x, ok := en.vars[r]; ok { // state field such as s.curElecID
 			return x
+		}
+		if cur != nil && cur.statusViews {
+			if n, ok := grpcCodes[r]; ok {
+				return val{lean: n, kd: kNat}
+			}
 		}
 		if r == "math.MaxUint32" {
 			return val{lean: "4294967295", kd: kInt}
@@ -1144,6 +1159,26 @@ func oneofMember(goType string) (*oneofCase, string) {
 	}
 	return nil, ""
 }
+
+// copyOf: a new struct with the contents of x (s.Proto(), status.FromProto(p), proto.Clone(p)): a
+// place of its own, so that a field assigned through the copy does not show through x
+func copyOf(x val, en env, pos token.Pos) val {
+	x = materialise(x, en, pos)
+	if x.kd.k != "ptr" {
+		fail(pos, "copy of a value of kind %s", x.kd)
+	}
+	np := fresh("path")
+	if b, ok := en.bound[x.path]; ok {
+		en.bound[np] = b
+	}
+	if en.isNil[x.path] {
+		en.isNil[np] = true
+	}
+	return val{lean: x.lean, kd: x.kd, path: np}
+}
+
+// grpcCodes: the numbers of the gRPC status codes the translated code names (codes.X as a number)
+var grpcCodes = map[string]string{"codes.OK": "0", "codes.Unknown": "2", "codes.InvalidArgument": "3", "codes.FailedPrecondition": "9", "codes.Unimplemented": "12", "codes.Internal": "13", "codes.Unavailable": "14"}
 
 // trComposite: &clientParams{F: e, ...}
 func trComposite(cl *ast.CompositeLit, en env) val {
@@ -2256,6 +2291,45 @@ func trCall(c *ast.CallExpr, en env) []val {
 		pendingEffBase = en2
 		return out
 	}
+	if cur != nil && cur.statusViews {
+		sel, isSel := c.Fun.(*ast.SelectorExpr)
+		switch {
+		case (fn == "status.FromProto" || fn == "int32") && len(c.Args) == 1:
+			x := trExpr(c.Args[0], en)
+			if fn == "int32" {
+				return []val{x}
+			}
+			return []val{copyOf(x, en, c.Pos())}
+		case fn == "proto.Equal" && len(c.Args) == 2:
+			// field-by-field equality of two messages of the same known struct
+			a, b := materialise(trExpr(c.Args[0], en), en, c.Pos()), materialise(trExpr(c.Args[1], en), en, c.Pos())
+			if a.kd.k != "ptr" || b.kd.k != "ptr" || a.kd.s != b.kd.s {
+				fail(c.Pos(), "proto.Equal of %s and %s", a.kd, b.kd)
+			}
+			opt := func(x val) string {
+				if x.kd.nn {
+					return "(some " + atom(x.lean) + ")"
+				}
+				return x.lean
+			}
+			// (two nil messages are equal, a nil and a non-nil one are not: equality of the options)
+			return []val{{lean: "(decide (" + opt(a) + " = " + opt(b) + "))", kd: kBool}}
+		case isSel && len(c.Args) == 0 && (sel.Sel.Name == "Proto" || sel.Sel.Name == "Code" || sel.Sel.Name == "Message"):
+			x := trExpr(sel.X, en)
+			if x.kd.k == "ptr" && x.kd.s == "GStatus" {
+				if sel.Sel.Name == "Proto" {
+					return []val{copyOf(x, en, c.Pos())}
+				}
+				x = materialise(x, en, c.Pos())
+				if _, bound := en.bound[x.path]; !bound && !x.kd.nn {
+					// the methods of *status.Status are nil-safe: a nil status has code OK and no message
+					f := fieldOf(x.kd.s, sel.Sel.Name, c.Pos())
+					return []val{{lean: "((" + atom(x.lean) + ".map (fun v => v." + f.lean + ")).getD " + zeroOf(f.kd) + ")", kd: f.kd}}
+				}
+				return []val{selectField(x, sel.Sel.Name, en, c.Pos())}
+			}
+		}
+	}
 	// oracle
 	if cur != nil {
 		o, ok := cur.oracles[fn]
@@ -3138,6 +3212,15 @@ func trAssign(a *ast.AssignStmt, en env) env {
 						return en
 					}
 				}
+			}
+			if fname, ok := cur.assertBoolFields[render(ta)]; ok {
+				// _, ok := x.(*T): whether the interface value x holds a *T is a Boolean field of x's representation
+				if id, isId := a.Lhs[0].(*ast.Ident); !isId || id.Name != "_" {
+					fail(a.Pos(), "type assertion %s", render(ta))
+				}
+				x := trExpr(ta.X, en)
+				bindResult(&en, a.Lhs[1].(*ast.Ident).Name, selectField(x, fname, en, a.Pos()), a.Tok == token.DEFINE, a.Pos())
+				return en
 			}
 			if fname, ok := cur.assertPtrFields[render(ta)]; ok {
 				// v, ok := x.(*T) of an interface value x represented by a struct: what x holds when
